@@ -9,11 +9,11 @@ also part of the Lean model dump (Report) compared by trace refinement.
 from .. import refine, runs
 
 MODULE = "PyhmsVerif.Props.C20"
-THEOREMS = []
-LEVEL = "exploration"
-LEVEL_TEXT = "Trace refinement against the Lean tree model plus the property's direct monitor on sampled real runs; theorems for this property not yet registered."
-LEVEL_NOTE = "Sampled runs only; model, tracer and monitors trusted."
-TECHNIQUE = "trace refinement against the Lean tree model (Tree.step re-executes real runs) + direct monitors"
+THEOREMS = ['C20.line_fields', 'C20.summary_fields', 'C20.levels_sum_to_total', 'C20.marker_iff', 'C20.marker_on_best_deme', 'C20.childLines_sound', 'C20.lines_root']
+LEVEL = 'proof'
+LEVEL_TEXT = 'Theorems about the report record of the Lean tree model (all states): header and level sections show the tree counters (summary_fields), per-level evaluation counts add up to the total (levels_sum_to_total), the *** marker is set iff the deme best fitness equals the tree best fitness and the deme holding the tree best is always marked, also at fitness 0 (marker_iff, marker_on_best_deme), every displayed line is the line of a deme that has run (childLines_sound). Tie: the parsed real summary()/tree() text is diffed with the model record at every boundary of every traced run (header, per-level counts incl. No-demes-available, displayed demes, class, evaluations, marker); purity of all accessors (no objective call, no state change, no RNG use, same answer twice) and number formatting by direct monitors.'
+LEVEL_NOTE = 'Trusted: Lean kernel + standard axioms; the regex parser of the report text; accessor purity and float formatting are sampled (monitors), not proved: in the model a report is a function of the state, so purity holds by construction and carries no information about the Python accessors.'
+TECHNIQUE = 'Lean 4 theorems about the report record of the tree model + trace refinement (parsed real reports vs model record at every boundary) + accessor purity monitors'
 RULE = "case = one traced run of a random configuration (1-3 levels, engine per level from the full list, every shipped GSC/LSC kind plus user-defined ones, both stock sprout mechanisms and user-composed chains, hibernation on/off, both directions, decimal boxes, optional cutoff/precision/stats wrappers, shared or per-level problems); non-trivial = run with >= 2 demes and >= 2 metaepochs; distinct by configuration hash"
 ASSUMPTIONS = ["objective is deterministic and never returns NaN", "runs are capped at 12 metaepochs by a user-level composite stop condition"]
 FORCE = None
